@@ -11,6 +11,9 @@ verus! {
 //@include prelude/policy_types.rs
 //@include spec/policy_spec.rs
 //@world meta_keyspace.get_kv_for_config
+//@cursor-shim
+//@path byteorder::LE => LE
+//@path crate::compaction::Fifo => Fifo
 
 // `&[u8]` as the decode functions see it (in U-POLICY the same parameter is a cursor at position 0 over these bytes)
 pub trait CursorView { spec fn at_start(&self) -> bool; spec fn rs(&self) -> RS; }
@@ -121,6 +124,58 @@ pub struct CreateOptions { pub dummy: u8 }
         r is Ok ==> r->Ok_0 == (old(w).rows[(keyspace_id, "manual_journal_persist"@)] == seq![1u8]), // [C16:manual-journal-persist-recovered-from-its-own-row] [C02:manual-journal-persist-recovered-from-its-own-row] [C09:manual-journal-persist-recovered-from-its-own-row]
 //@proof before Ok(manual_journal_persist)
         proof { assert([1u8]@ =~= seq![1u8]); }
+//@end
+
+// ---- scalar options and compaction-strategy parameters: rule R-CURSOR reads the row's bytes through a cursor at position 0
+pub type LE = LittleEndian;
+#[verifier::external_body]
+pub fn shim_cursor(s: &UserValue) -> (r: ByteCursor) ensures r.all@ == s@, r.pos@ == 0 { unimplemented!() }
+pub struct Arc<T> { pub t: T }
+impl<T> Arc<T> { pub fn new(t: T) -> (r: Arc<T>) ensures r.t == t { Arc { t } } }
+// lsm-tree compaction::Fifo::new(limit, ttl_seconds) (re-exported as crate::compaction::Fifo)
+pub struct Fifo { pub limit: u64, pub ttl_seconds: Option<u64> }
+impl Fifo { pub fn new(limit: u64, ttl_seconds: Option<u64>) -> (r: Fifo) ensures r == (Fifo { limit, ttl_seconds }) { Fifo { limit, ttl_seconds } } }
+/// the little-endian u64 a row starts with
+pub open spec fn row_u64(w: World, id: u64, name: Seq<char>) -> u64 { de64(w.rows[(id, name)].subrange(0, 8)) }
+
+//@extract src/keyspace/options.rs :: CreateOptions :: from_kvs as=from_kvs_max_memtable_size world props=C16
+//@anchor let max_memtable_size = meta_keyspace
+//@stmts 2
+//@sig fn from_kvs_max_memtable_size(keyspace_id: InternalKeyspaceId, meta_keyspace: &MetaKeyspace) -> FjResult<u64>
+//@yield Ok(max_memtable_size)
+//@contract
+    requires old(w).rows.dom().contains((keyspace_id, "max_memtable_size"@)),
+    ensures
+        // the memtable size a keyspace was created with is recovered from ITS OWN row, all eight bytes of it
+        r is Ok ==> r->Ok_0 == row_u64(*old(w), keyspace_id, "max_memtable_size"@), // [C16:max-memtable-size-recovered-from-its-own-row-at-full-width]
+//@end
+
+//@extract src/keyspace/options.rs :: CreateOptions :: from_kvs as=from_kvs_expect_point_read_hits world props=C16
+//@anchor let expect_point_read_hits = meta_keyspace
+//@stmts 2
+//@sig fn from_kvs_expect_point_read_hits(keyspace_id: InternalKeyspaceId, meta_keyspace: &MetaKeyspace) -> FjResult<bool>
+//@yield Ok(expect_point_read_hits)
+//@contract
+    requires old(w).rows.dom().contains((keyspace_id, "expect_point_read_hits"@)),
+    ensures r is Ok ==> r->Ok_0 == (old(w).rows[(keyspace_id, "expect_point_read_hits"@)] == seq![1u8]), // [C16:expect-point-read-hits-recovered-from-its-own-row]
+//@proof before Ok(expect_point_read_hits)
+        proof { assert([1u8]@ =~= seq![1u8]); }
+//@end
+
+//@extract src/keyspace/options.rs :: CreateOptions :: from_kvs as=from_kvs_fifo world props=C16
+//@anchor let fifo_limit = meta_keyspace
+//@to-block-end
+//@wrap-ok
+//@sig fn from_kvs_fifo(keyspace_id: InternalKeyspaceId, meta_keyspace: &MetaKeyspace) -> FjResult<Arc<Fifo>>
+//@contract
+    requires old(w).rows.dom().contains((keyspace_id, "fifo_limit"@)), old(w).rows.dom().contains((keyspace_id, "fifo_ttl"@)),
+        old(w).rows[(keyspace_id, "fifo_ttl"@)] == seq![1u8] ==> old(w).rows.dom().contains((keyspace_id, "fifo_ttl_seconds"@)),
+    ensures
+        // the FIFO parameters are recovered from their own rows, the limit at its full eight bytes
+        r is Ok ==> r->Ok_0.t.limit == row_u64(*old(w), keyspace_id, "fifo_limit"@), // [C16:fifo-limit-recovered-from-its-own-row-at-full-width]
+        r is Ok ==> r->Ok_0.t.ttl_seconds == (if old(w).rows[(keyspace_id, "fifo_ttl"@)] == seq![1u8] { Some(row_u64(*old(w), keyspace_id, "fifo_ttl_seconds"@)) } else { None::<u64> }), // [C16:fifo-ttl-recovered-from-its-own-rows]
+//@proof before let ttl_seconds
+    proof { assert([1u8]@ =~= seq![1u8]); }
 //@end
 
 //@canary
